@@ -1272,7 +1272,7 @@ func main() {
 		col.flush(run)
 		run.Finish()
 	}
-	n := run.N(600, 30000)
+	n := run.N(400, 30000)
 	sim.Parallel(n, 16, func(i int) { runHistory(run, col, i) })
 	col.flush(run)
 	for _, c := range []string{"vote:accepted", "vote:re-vote", "vote:first-vote", "vote:empty-vote-clears-previous", "vote:sum-equals-power-accepted",
